@@ -30,6 +30,8 @@ claimed={
         "docker HTTP client and grpc replaced (engine: DockerInspectContainer intercepted by a harness model, grpc status modelled; native replay: httptest docker daemon, fake CRI client); os/ioutil calls run on an in-memory file system in the engine and on a temp dir natively; veth cleanup (netlink) not covered; Remove failures not injected"),
  'C18':("model_checking","every feasible path of every harness is also checked for panics, self-deadlocks, unwinding failures (non-termination candidates are replayed under a watchdog) and locks left held; dedicated surface harnesses drive Filter / Bind / UpdatePod / DeletePod / unbind / syncPodIP / resync with arbitrary owner references, annotation texts (malformed JSON, wrong shapes, reversed / overlapping / boundary ranges), phases and missing workloads, and the range walk with symbolic 32-bit endpoints incl. 255.255.255.255",
         "galaxy-ipam typed surfaces only so far; HTTP handlers, configuration texts, CNI requests and NetworkPolicy objects are covered only where other properties' harnesses execute them; annotation texts range over a finite family; termination within the engine's step/unwind bounds"),
+ 'C12':("model_checking","cmdAdd (resolveNetworks + CmdAdd) and CmdDel executed symbolically for 6 network-selection forms with a symbolic failure plan over the plugin invocations: order, interface names, rollback, exact retry of failed DELs, idempotent repeated DEL, prevResult chaining within a request and isolation between requests of two containers",
+        "plugin binaries replaced (engine: DelegateAdd/DelegateDel intercepted; native replay: recording shell plugin through the real DelegateAdd/DelegateDel and the real /var/lib/cni/galaxy state dir); requests are sequential (no concurrent requests); 3 configured networks"),
  'C04':("model_checking","bounded histories of the real plugin (Filter, Bind, unbind, resyncPod, Release) over fakes of the API server: re-incarnation scenario with symbolic policy, event order, lister lag; after every step every live bound pod must still own its IP (solver decides every symbolic branch; counterexamples replayed natively)",
         "bounds: see evidence bounds; sequential histories (event orders, lags) only - no thread interleavings; fakes of API server/listers trusted"),
 }
